@@ -116,7 +116,18 @@ def make_network(net):
     N = Network()
     G = N.G
     G.graph["name"] = "case-network"
-    for i, jd in enumerate(net["jds"]):
+    # identity is not position: the vertices are inserted in a case-dependent order (natural / reversed / shuffled),
+    # their labels stay 0..N-1
+    import random as _r
+    n = len(net["jds"])
+    order = list(range(n))
+    sel = (7 * len(net["edges"]) + n) % 3
+    if sel == 1:
+        order.reverse()
+    elif sel == 2:
+        _r.Random(1000 + n + len(net["edges"])).shuffle(order)
+    for i in order:
+        jd = net["jds"][i]
         G.add_node(i, **{})
         # annotations are tuples for generator-made networks, but a caller may legitimately store lists:
         # half of the case networks carry LIST-valued joint degrees (shared by reference through G.copy())
@@ -196,7 +207,12 @@ def impl_target(net, tg):
     from gcmpy.names.tools_names import ToolsNames
     from gcmpy.tools.joint_excess_joint_degree_matrices import JointExcessJointDegreeMatrices
     ejks = {}
-    for t, items in enumerate(tg):
+    # the insertion order of the name-keyed dict is not part of the interface: reversed for half the targets
+    idx = list(range(len(tg)))
+    if sum(len(items or []) for items in tg) % 2 == 1:
+        idx.reverse()
+    for t in idx:
+        items = tg[t]
         if items is None:
             continue
         ejks[net["names"][t]] = {tuple(k): float(Fraction(q[0], q[1])) for k, q in items}
